@@ -540,8 +540,10 @@ func c10One(r *Run, table []segVal, tkey string, hist []int, bucket string, b *c
 			}
 		}
 	}
-	key := fmt.Sprintf("%s|%v|%s", bucket, hist, tkey)
-	r.Count(key, nontrivial || obs.PanicAt >= 0, bucket)
+	if bucket != "" {
+		key := fmt.Sprintf("%s|%v|%s", bucket, hist, tkey)
+		r.Count(key, nontrivial || obs.PanicAt >= 0, bucket)
+	}
 	if class, what, observed, required := judge(table, hist, obs); class != "" {
 		r.Fail(class, what, histInput(table, hist), observed, required)
 	}
@@ -620,6 +622,7 @@ func referenceCases(r *Run, table []segVal, hist []int, obs combineObs) {
 
 func corrC10(r *Run) {
 	r.Import("Model.CombinerRun")
+	r.Import("Model.ComposeCombineRun")
 	r.PerShard(80)
 	r.Rule = "arrival histories of deliver_sm PDUs through pdu.CombineMultipartDeliverSM: corpus (pre-repair witnesses) first; " +
 		"all distinct orderings of the segments of m concurrent messages of N parts (m,N small) with duplicated segments, over every adversarial key set; " +
@@ -656,7 +659,9 @@ func corrC10(r *Run) {
 		model      int // every model-th history becomes a model case (1 = all)
 		cap        int // stop after this many orderings (0 = all); beyond: random sample
 	}
-	shapes := []shape{{1, 1, 1, 1, 0}, {1, 2, 1, 1, 0}, {1, 3, 1, 1, 0}, {1, 4, 0, 1, 0}, {2, 2, 0, 1, 0}, {2, 2, 1, 1, 0}, {3, 2, 0, 1, 0}, {2, 3, 0, 1, 0}}
+	// (1,2,2) and (1,3,2): a message with two more arrivals of its segments — after the delivery a
+	// duplicate starts a fresh, incomplete entry and must not fire (C10_at_most_once, C10_duplicate_after_delivery)
+	shapes := []shape{{1, 1, 1, 1, 0}, {1, 2, 1, 1, 0}, {1, 3, 1, 1, 0}, {1, 2, 2, 1, 0}, {1, 3, 2, 1, 0}, {1, 4, 0, 1, 0}, {2, 2, 0, 1, 0}, {2, 2, 1, 1, 0}, {3, 2, 0, 1, 0}, {2, 3, 0, 1, 0}}
 	if r.Quick {
 		shapes = append(shapes, shape{2, 2, 2, 3, 0}, shape{2, 3, 1, 9, 0}, shape{3, 2, 1, 9, 0})
 	} else {
@@ -692,7 +697,11 @@ func corrC10(r *Run) {
 			} else if sh.dups == 2 {
 				dupChoices = [][]int{{0, 0}, {0, 1}, {1, 2}, {0, 3}, {r.Rng.Intn(len(table)), r.Rng.Intn(len(table))}}
 			}
-			for _, dc := range dupChoices {
+			for _, dc0 := range dupChoices {
+				dc := make([]int, len(dc0))
+				for i, x := range dc0 {
+					dc[i] = x % len(table)
+				}
 				hist := make([]int, 0, len(table)+len(dc))
 				for i := range table {
 					hist = append(hist, i)
@@ -830,6 +839,9 @@ func corrC10(r *Run) {
 			r.Sample(map[string]interface{}{"op": "combine", "keys": name, "history": hist, "trace": fmt.Sprint(obs.Trace)})
 		}
 	}
+
+	// ---- end to end: real ComposeMultipartShortMessage output through the combiner (c10_e2e.go)
+	c10EndToEnd(r)
 
 	// ---- the key: Go's struct equality against the model's beq_key, and the legacy Sprint key
 	var ids []msgID
